@@ -722,6 +722,20 @@ theorem run_terminates_time_and_tank_conditions (hR : 0 < scfg.rule)
 /-- the clamp fix 7d8c4ce1 put into the presolve pass: `min(max(b, 0), max(int(cur − prev) − 1, 0))` -/
 def clampBack (cur prev b : Int) : Int := min (max b 0) (max (cur - prev - 1) 0)
 
+/-- the clamp read off the current source (WHICH quantities bound the backtrack) is the reference one ... -/
+theorem generated_clamp_is_ref : Gen.clampShape = refClampShape := by decide
+
+/-- ... so the clamp the code applies is `clampBack`: its bound is (tentative time − previous accepted time) − 1, the length
+of THIS step, not the hydraulic timestep (the two differ on the short step after an off-grid accepted time) -/
+theorem generated_clamp_is_clampBack (cur prev hyd b : Int) : clampWith Gen.clampShape cur prev hyd b = clampBack cur prev b := by
+  rw [generated_clamp_is_ref]; simp [clampWith, refClampShape, Quantity.eval, clampBack]
+
+/-- why the bound matters: with the hydraulic timestep as the bound, a backtrack of a whole hydraulic step survives the clamp on
+a short step and takes the clock back before the previous accepted time -/
+theorem hydraulic_step_bound_breaks_contract :
+    5400 - clampWith { refClampShape with minuend := .hydraulicStep, subtrahend := .zero } 5400 4500 3600 2700 ≤ 4500 ∧
+    4500 < 5400 - clampWith refClampShape 5400 4500 3600 2700 := by decide
+
 theorem clampBack_bounds (cur prev b : Int) (h : prev < cur) : 0 ≤ clampBack cur prev b ∧ clampBack cur prev b < cur - prev := by
   unfold clampBack; omega
 
